@@ -49,6 +49,8 @@ func init() {
 			{ID: "C16-R25", Title: "failures noted in sort callbacks stick", Floor: 1, Run: failuresNotedInCallbacksStick},
 			{ID: "C16-R26", Title: "literals are assembled in source order (shared with C01-R29)", Floor: 3, Run: literalsAreAssembledInSourceOrder},
 			{ID: "C16-R27", Title: "script-supplied sizes are tested before make", Floor: 3, Run: scriptSizesAreTestedBeforeMake},
+			{ID: "C16-R28", Title: "operands are compiled in source order and once (shared with C01-R20)", Floor: 10, Run: operandsCompiledInSourceOrder},
+			{ID: "C16-R29", Title: "three-way results are -1, 0 or 1", Floor: 10, Run: threeWayResultsAreMinusOneZeroOrOne},
 		},
 	})
 }
